@@ -147,6 +147,54 @@ fn run_job(f: &[&str]) -> String {
             let s: Vec<String> = lines.iter().map(|x| x.to_string()).collect();
             format!("OK\t{}", s.join(","))
         }
+        // threads <category> <pattern> <file A> <file B> <threads> <iterations>: the two files analysed concurrently (thread i takes
+        // A or B alternately), every result compared with the result of the same call made alone before the threads start
+        "threads" => {
+            let cat = f[1].to_string();
+            let pat = f[2].to_string();
+            let srcs: Vec<String> = vec![std::fs::read_to_string(f[3]).unwrap(), std::fs::read_to_string(f[4]).unwrap()];
+            let n: usize = f[5].parse().unwrap();
+            let iters: usize = f[6].parse().unwrap();
+            fn one(cat: &str, pat: &str, src: &str) -> String {
+                let lines = match cat {
+                    "opt" => opt::analyze_for_optimization(src, 0, opt::str_to_optimization(pat)),
+                    "vul" => vul::analyze_for_vulnerability(src, 0, vul::str_to_vulnerability(pat)),
+                    "qa" => qa::analyze_for_qa(src, 0, qa::str_to_qa(pat)),
+                    _ => panic!("category"),
+                };
+                let s: Vec<String> = lines.iter().map(|x| x.to_string()).collect();
+                s.join(",")
+            }
+            let want: Vec<String> = srcs.iter().map(|s| one(&cat, &pat, s)).collect();
+            let srcs = std::sync::Arc::new(srcs);
+            let want = std::sync::Arc::new(want);
+            let mut handles = vec![];
+            for i in 0..n {
+                let (srcs, want, cat, pat) = (srcs.clone(), want.clone(), cat.clone(), pat.clone());
+                handles.push(std::thread::Builder::new().stack_size(64 << 20).spawn(move || {
+                    let k = i % 2;
+                    for it in 0..iters {
+                        let got = one(&cat, &pat, &srcs[k]);
+                        if got != want[k] {
+                            return Some(format!("{}\t{}\t{}\t{}", if k == 0 { "A" } else { "B" }, it, got, want[k]));
+                        }
+                    }
+                    None
+                }).unwrap());
+            }
+            let mut bad: Option<String> = None;
+            for h in handles {
+                match h.join() {
+                    Ok(Some(m)) => { if bad.is_none() { bad = Some(m); } }
+                    Ok(None) => {}
+                    Err(_) => { if bad.is_none() { bad = Some("PANIC-IN-THREAD\t0\t\t".to_string()); } }
+                }
+            }
+            match bad {
+                None => "OK".to_string(),
+                Some(m) => format!("MISMATCH\t{}", m),
+            }
+        }
         // debugtree <path> -> hex of `{:?}` of the parsed SourceUnit
         "debugtree" => {
             let src = std::fs::read_to_string(f[1]).unwrap();
